@@ -1605,7 +1605,8 @@ def _describe(ctx):
         ctx.rule = ("abstract designs (1-7 modules in shuffled order incl. use before declaration, ANSI or header-only ports, "
                     "wire ranges [msb:lsb] with lsb 0..5, module ports based at 0, every connection expression shape and width "
                     "<= port width, named and positional maps, escaped identifiers, comments, `celldefine primitives, "
-                    "never-declared black boxes, parameters, (* *) attributes, assigns, alias header ports over scalar nets) "
+                    "never-declared black boxes, parameters (#( ) or defparam), (* *) attributes, assigns, alias header ports over scalar nets, "
+                    "declarations with several names) "
                     "rendered by the engine's own writer; plus direct drives of the reader's building blocks and the bundled "
                     ".v files. distinct = distinct input text; non-trivial = a bus of width >= 2 or hierarchy depth >= 2")
         ctx.assumptions = [
